@@ -78,7 +78,45 @@ func (s *StreamRecipe) Build() *Built {
 				maxRaw = 1 << 16
 			}
 		}
-		cs := refenc.Realise(r, kinds, refenc.SeqOptions{MaxOpsPerChunk: r.Range(1, 80), MaxRaw: maxRaw, DictSize: ds, BigChunk: s.Big})
+		o := refenc.SeqOptions{MaxOpsPerChunk: r.Range(1, 80), MaxRaw: maxRaw, DictSize: ds, BigChunk: s.Big}
+		if r.Chance(1, 12) {
+			// LZMA chunks of the most expensive operations (larger than their data),
+			// behind a history of full-size uncompressed chunks
+			pre := []string{"UD"}
+			o.ForceSize, o.Costly = map[int]int{0: 1 << 16}, map[int]bool{}
+			for i := r.Range(0, 10); i > 0; i-- {
+				o.ForceSize[len(pre)] = 1 << 16
+				pre = append(pre, "U")
+			}
+			if kinds[0] == "UD" {
+				kinds[0] = "U"
+			}
+			if kinds[0] == "U" {
+				// a chunk without dictionary reset needs the properties anew behind raw chunks
+				for i, k := range kinds {
+					if k == "L" || k == "LR" {
+						kinds[i] = "LRN"
+						break
+					} else if k != "U" {
+						break
+					}
+				}
+			}
+			kinds = append(pre, kinds...)
+			if ok, _ := refenc.Legal(kinds); !ok {
+				sim.Infra("refenc-l2: costly prefix made the sequence illegal: %v", kinds)
+			}
+			for i, k := range kinds {
+				if k[0] == 'L' {
+					o.Costly[i] = true
+				}
+			}
+			if o.DictSize < 1<<20 {
+				o.DictSize = 1 << 20
+			}
+			ds = o.DictSize
+		}
+		cs := refenc.Realise(r, kinds, o)
 		return &Built{Stream: cs.Stream, Content: cs.Content, Format: "lzma2", Dict: ds}
 	case "refenc-xz-maxdict":
 		// one small block whose LZMA2 filter declares the largest dictionary the
